@@ -79,18 +79,18 @@ def generate(chk, prop, tier, seed):
                 b["fam"] = "exh-ren-cmt"
                 behs.append(b)
     if prop == "C08":
-        cfg = "Perturb_c08p_%s.cfg" % ("quick" if tier == "quick" else "thorough")
-        r = tlc.run("MCPerturb.tla", cfg, timeout=6000)
-        if not r.ok():
-            raise MachineryError("TLC failed on %s: %s %s" % (cfg, r.invariant_violated, r.error))
-        chk.add_tlc(r)
-        chk.cov["tlc_runs"].append({"cfg": cfg, "generated": r.generated, "distinct": r.distinct, "behaviours": len(r.beh), "wall_s": r.wall_s})
         from .. import catalogue as _cat
-        for b in r.beh:
-            # the parenthesis edit sits on the opening statement (or a part) of the construct
-            if b["ed"] and b["ed"][0]["pos"] <= len(b["out"]) and (b["out"][b["ed"][0]["pos"] - 1]["k"] in _cat.OPEN or b["out"][b["ed"][0]["pos"] - 1]["k"] in _cat.MIDS):
-                b["fam"] = "exh-parentheses"
-                behs.append(b)
+        for cfg, kinds in (("Perturb_c08p_%s.cfg" % ("quick" if tier == "quick" else "thorough"), (_cat.OPEN, _cat.MIDS)), ("Perturb_c08u_quick.cfg", (_cat.UNIT,))):
+            r = tlc.run("MCPerturb.tla", cfg, timeout=6000)
+            if not r.ok():
+                raise MachineryError("TLC failed on %s: %s %s" % (cfg, r.invariant_violated, r.error))
+            chk.add_tlc(r)
+            chk.cov["tlc_runs"].append({"cfg": cfg, "generated": r.generated, "distinct": r.distinct, "behaviours": len(r.beh), "wall_s": r.wall_s})
+            for b in r.beh:
+                # the parenthesis edit sits on the opening statement (or a part) of the construct / on the unit header
+                if b["ed"] and b["ed"][0]["pos"] <= len(b["out"]) and any(b["out"][b["ed"][0]["pos"] - 1]["k"] in K for K in kinds):
+                    b["fam"] = "exh-parentheses"
+                    behs.append(b)
     if prop == "C08":
         # the same single structural edits over the remaining construct kinds and TYPE / INTERFACE / ENUM definitions
         cfg = "Perturb_c08c_%s.cfg" % ("quick" if tier == "quick" else "thorough")
@@ -198,6 +198,10 @@ def build_case(prop, b):
         esrc = "\n".join(lines) + "\n"
         jobs = [dict(name="E", src=esrc, std=std, ic=not others)]
         meta = {"valid": b["valid"] or skip}
+        if not meta["valid"] and (any(e["t"] == "ren" for e in ed) or b["id"] % 16 == 0):
+            # the same text once more in the same process (and under the other standard): refused the first time, refused again
+            jobs.append(dict(name="E2", src=esrc, std="f2003", ic=not others))
+            jobs.append(dict(name="E3", src=esrc, std=std, ic=not others))
     elif prop == "C15":
         hidden = {e["pos"] for e in ed if e["t"] == "sent"}
         minus = [s for i, s in enumerate(stmts, 1) if i not in hidden]
@@ -207,6 +211,7 @@ def build_case(prop, b):
                 dict(name="Pminus", src=render.free_text(minus), std=std, ic=True),
                 dict(name="on", src=src, std=std, ic=True, omp=True),
                 dict(name="off", src=src, std=std, ic=True),
+                dict(name="onfile", src=src, std=std, ic=True, omp=True, reader="file"),       # the same through FortranFileReader
                 dict(name="onkeep", src=src, std=std, ic=False, omp=True, want=["leaves"]),
                 dict(name="Pkeep", src=plain, std=std, ic=False, want=["leaves"])]
         # the same in fixed form: sentinel !$ / c$ / *$ in columns 1-2 (continuation: sentinel, three blanks, mark in column 6)
@@ -262,6 +267,22 @@ def build_case(prop, b):
             twice_stmts = stmts[:b_] + stmts[a_ - 1:b_] + stmts[b_:]
             jobs.append(dict(name="Ptwice", src=render.free_text(twice_stmts), std=std, ic=True))
             jobs.append(dict(name="twice", src="\n".join(main2) + "\n", std=std, ic=True, files={"d1": files}, reader="string"))
+        # comments kept: a comment line in front of some statements (so that comments travel into the include files), free form
+        # and - for a third of the cases - fixed form (the nested reader has to inherit form and comment mode)
+        if b["id"] % 2 == 0:
+            perk = {i: (["  ! note %d" % i] if (i + b["id"]) % 3 == 0 else []) + ls for i, ls in per.items()}
+            maink, filesk = perturb.split_includes(perk, stmts, incs, style=style)
+            filesk.pop("__nested__")
+            jobs.append(dict(name="Pk", src="\n".join(l for i in sorted(perk) for l in perk[i]) + "\n", std=std, ic=False, want=["leaves"]))
+            jobs.append(dict(name="strk", src="\n".join(maink) + "\n", std=std, ic=False, files={"d1": filesk}, reader="string", want=["leaves"]))
+            jobs.append(dict(name="filek", src="\n".join(maink) + "\n", std=std, ic=False, files={"d1": filesk}, reader="file", want=["leaves"]))
+        if b["id"] % 3 == 0 and style in (0, 1, 5):
+            fper = {i + 1: (["C     note %d" % (i + 1)] if (i + 1 + b["id"]) % 3 == 0 else []) + ls for i, ls in enumerate(fixed_lines_per_stmt(stmts))}
+            if all(len(l) <= 72 for ls in fper.values() for l in ls):
+                mainf, filesf = perturb.split_includes(fper, stmts, incs, style=style, lead="      ")
+                filesf.pop("__nested__")
+                jobs.append(dict(name="Pf", src="\n".join(l for i in sorted(fper) for l in fper[i]) + "\n", std=std, ic=False, fmt=(False, False), want=["leaves"]))
+                jobs.append(dict(name="strf", src="\n".join(mainf) + "\n", std=std, ic=False, fmt=(False, False), files={"d1": filesf}, reader="string", want=["leaves"]))
         if nested_names:
             # the first matching directory in include-path order wins, also for an INCLUDE inside an included file:
             # the nested files live in d1, the files that include them in d2 next to decoys of the nested ones
@@ -444,11 +465,15 @@ def events_for(prop, case, res, D, ctr):
     elif prop == "C08":
         if not case["meta"]["valid"]:
             claim("reject", "E")
+            for name in ("E2", "E3"):
+                if name in J:
+                    claim("reject", name)
     elif prop == "C15":
         claim("accept", "P")
         claim("accept", "Pminus")
         claim("sametree", "P", ci=False, **ref("on"))
         claim("sametree", "Pminus", ci=False, **ref("off"))
+        claim("sametree", "P", ci=False, **ref("onfile"))
         for name in ("onkeep", "Pkeep"):
             lv = R[name].get("leaves")
             if lv is not None:
@@ -470,6 +495,10 @@ def events_for(prop, case, res, D, ctr):
                 claim("sametree", "P", ci=False, **ref(name))
         if "twice" in J:
             claim("sametree", "Ptwice", ci=False, **ref("twice"))
+        for pn, names in (("Pk", ("strk", "filek")), ("Pf", ("strf",))):
+            if pn in J and R[pn]["o"]["res"] == "ok":
+                for name in names:
+                    claim("sametree", pn, ci=False, **ref(name))
         if not case["meta"]["nested"]:
             # unresolved includes are kept as Include_Stmt nodes exactly where the lines were
             pst = [x for x in (R["P"].get("leaves") or []) if x[0] == "s"]
